@@ -95,5 +95,10 @@ let () = read_lines_iter (fun line ->
   | "sdecy" :: d :: r -> mk_s d (OSDecY (nid d, pairs r)) (first_key r)
   | ["sall"; s; lim] -> out ("it[" ^ kvs (lim_take (int_of_string lim) (sall (gets !st (nid s)))) ^ "]") []
   | ["stbf"; s] -> out ("tbf=" ^ b2s (stbf (gets !st (nid s)))) []
+  | "vrt" :: codec :: _vtype :: r ->
+    (* round trip of a freshly built map whose values are opaque items (non-scalar on the Go side) *)
+    let m = List.fold_left (fun m (k, v) -> mset m k v) MEmpty (pairs r) in
+    let d = if codec = "j" then mdecode_json (mencode m) else mdecode_yaml (mencode m) in
+    out ("rt[" ^ kvs (mall d) ^ "]") (first_key r)
   | ["eqall"] -> out (eqall ()) []
   | _ -> Printf.printf "E unknown op: %s\n" line)
